@@ -371,7 +371,7 @@ fn random_doc(r: &mut Rng, maxl: usize, maxa: usize, maxv: usize) -> Value {
     // every attribute name the crate knows (the code is generic: none of them may be treated specially),
     // some it does not, and links whose attributes all share one key
     let keys = ["rt", "if", "ct", "title*", "k-1", "é", "sz", "a.b_c", "rel", "anchor", "hreflang", "media", "title", "type", "v", "obs",
-                "ep", "lt", "d", "base", "gp", "et", "REL"];
+                "ep", "lt", "d", "base", "gp", "et", "REL", ""];
     let nl = r.below(maxl as u64 + 1);
     let mut d = vec![];
     for _ in 0..nl {
